@@ -350,6 +350,7 @@ func RunCoh(c *core.Ctx) {
 			}
 			// TypeBuilder counts
 			checkTypeBuilder(c, g, base, len(enums), len(msgs))
+			checkInitChain(c, g, v, base, fdesc)
 			checkMsgInfos(c, g, base, msgs, msgGo)
 		}
 		// ---- per message API
@@ -834,4 +835,54 @@ func enumConstName(g *model.GenPkg, f *model.Field, v protoreflect.EnumValueDesc
 		}
 	}
 	return "?"
+}
+
+// checkInitChain (COH.initchain): a file's init function first initialises every file it imports that lives in the
+// same Go package (their types are referenced by this file's goTypes/depIdxs tables); without the call the
+// descriptor is built against uninitialised dependencies whenever this file's init happens to run first.
+func checkInitChain(c *core.Ctx, g *model.GenPkg, rawVar, base string, fdesc protoreflect.FileDescriptor) {
+	src := g.Source
+	initFn := g.Funcs[base+"_init"]
+	if initFn == nil {
+		return // reported by COH.builder
+	}
+	sameGoPkg := map[string]string{} // proto file name -> base of its tables
+	for v, fdp := range g.RawVars {
+		if v != rawVar {
+			sameGoPkg[fdp.GetName()] = strings.TrimSuffix(v, "_rawDesc")
+		}
+	}
+	builderAt := -1
+	calls := map[string]int{}
+	for i, st := range initFn.Body.List {
+		if es, ok := st.(*ast.ExprStmt); ok {
+			if call, ok := es.X.(*ast.CallExpr); ok && len(call.Args) == 0 {
+				if id, ok := call.Fun.(*ast.Ident); ok {
+					if _, seen := calls[id.Name]; !seen {
+						calls[id.Name] = i
+					}
+				}
+			}
+		}
+		if builderAt < 0 {
+			ast.Inspect(st, func(n ast.Node) bool {
+				if sel, ok := n.(*ast.SelectorExpr); ok && sel.Sel.Name == "TypeBuilder" {
+					builderAt = i
+				}
+				return true
+			})
+		}
+	}
+	imps := fdesc.Imports()
+	for i := 0; i < imps.Len(); i++ {
+		dep := imps.Get(i).Path()
+		depBase, same := sameGoPkg[dep]
+		if !same {
+			continue
+		}
+		con := g.Name + " " + base + "_init -> " + dep
+		at, ok := calls[depBase+"_init"]
+		c.Check(ok && (builderAt < 0 || at < builderAt), "COH.initchain", con, "calls "+depBase+"_init() before building its own types",
+			"the imported file "+dep+" is generated into the same Go package but "+base+"_init does not call "+depBase+"_init() before the TypeBuilder: when this file's init runs first its message and enum dependencies are unresolved placeholders", pos(c, g, initFn.Pos()), src)
+	}
 }
